@@ -13,6 +13,7 @@ Op == CASE E.op = "Start" -> Start
         [] E.op = "Get" -> Get(E.c)
         [] E.op = "Kill" -> Kill(E.c)
         [] E.op = "Cancel" -> Cancel
+        [] E.op = "Crash" -> Crash
         [] OTHER -> FALSE
 
 TNext ==
